@@ -14,20 +14,25 @@ import numpy as np
 BOUNDS = (
     "Scenes: 40x48 integer-valued images (3 Gaussian sources, peak <= 200, pedestal 20, rounded noise; all values "
     "in [1, 250]) with an integer-valued error image (values 39..221, so that err**2 does not fit the narrow integer dtypes) from a sub-seed; quick 1 scene, thorough 6. "
-    "Representations (37): of the data (the error array stays float64) float32; int64, int32, int16; uint8, uint16, uint64; big-endian >f8, >f4, "
+    "Representations (32): of the data (the error array stays float64) float32; int64, int32, int16; uint8, uint16, uint64; big-endian >f8, >f4, "
     ">i2; Fortran order; strided views ([::2, ::2] of a 2x inflated array, negative strides, column slice of a "
     "wider array); MaskedArray with nomask and with an all-False mask array; NDData and NDData with unit (only for "
     "the entry points documented to accept NDData: aperture_photometry, ApertureStats, Background2D, PSFPhotometry); "
     "Quantity (Jy) float64 and float32 (data and error; thresholds/scalars carry the unit when the data do); "
     "NDData holding int16 / float32 arrays; and of the error array only (data float64): float32, int64, int16, uint8, "
     "uint16, >f8, >i2, Fortran order, strided, MaskedArray (evaluated only for entry points that take an error). "
-    "Entry points (30 configurations): aperture_photometry (exact, center), ApertureStats (plain, sigma_clip+local "
+    "Entry points (46 configurations of 35 entry points): aperture_photometry (exact, center), ApertureStats (plain, sigma_clip+local "
     "background), find_peaks (plain, centroid_func), DAOStarFinder, IRAFStarFinder, StarFinder (data "
-    "representation; kernel representation), detect_sources, deblend_sources, SourceCatalog (plain; "
-    "error+background; segmentation dtype), Background2D (default; mask+median filter), RadialProfile, "
-    "CurveOfGrowth, centroid_com/quadratic/1dg/2dg (cutout, with error for 1dg/2dg), centroid_sources (com, 2dg), "
-    "PSFPhotometry (2 stars, CircularGaussianPRF, init_params), make_model_image (parameter-table column "
-    "representation; unit-ful flux), aperture positions/radii given in the representation. "
+    "representation; kernel representation), detect_sources, deblend_sources, SourceFinder, detect_threshold, "
+    "SourceCatalog (plain; error+background+convolved_data+localbkg; segmentation-image dtype/layout), Background2D "
+    "(default; mask+median estimator), the 9 background/RMS estimator classes (scalar and axis=1), LocalBackground, "
+    "RadialProfile, CurveOfGrowth, centroid_com/quadratic/1dg/2dg (cutout, with error for 1dg/2dg), centroid_sources "
+    "(com, 2dg; positions in the representation), PSFPhotometry (2 stars, CircularGaussianPRF, init_params; with "
+    "LocalBackground), IterativePSFPhotometry (+ residual image), fit_2dgaussian, fit_fwhm, make_model_image "
+    "(parameter-table column representation; unit-ful flux), aperture positions/radius in the representation, "
+    "ApertureMask.multiply/cutout/get_values, calc_total_error (scalar and array gain; electron/s + s units), "
+    "data_properties, gini, CutoutImage (inside, partial), isophote Ellipse.fit_image (plain containers only), "
+    "extract_stars (NDData representations, reference = NDData(float64)). "
     "Tolerances vs the float64 reference, per output, scale = max|reference output|: discrete outputs (label images, "
     "peak indices, npix, areas, bbox, ids) identical; float outputs for representations holding the same float64 "
     "numbers (ints, big-endian, layout, masked, NDData, Quantity float64): |a-b| <= 1e-9*(|ref| + scale) "
@@ -107,9 +112,7 @@ class Rep:
         """Array-like (data, error, background, 1-D columns) in this representation."""
         out = self._conv(np.asarray(arr))
         if self.has_unit and not self.nddata:
-            out = out * self.unit if not isinstance(out, np.ma.MaskedArray) else out
-            if out.dtype != self._conv(np.asarray(arr)).dtype:  # Quantity(int) would become float64 anyway
-                pass
+            out = out * self.unit
         return out
 
     @property
@@ -545,8 +548,6 @@ def e_centroid_sources(sc, rep, cfg):
     from photutils.centroids import centroid_2dg, centroid_com, centroid_sources
     f = dict(com=centroid_com, g2=centroid_2dg)[cfg]
     d = rep.a(sc.base)
-    if isinstance(d, np.ma.MaskedArray) is False and rep.has_unit:
-        pass
     # positions in the representation's dtype too (integer valued positions are exact in every dtype)
     xp = rep.raw(sc.src[:, 0]) if not rep.nddata else sc.src[:, 0]
     yp = rep.raw(sc.src[:, 1]) if not rep.nddata else sc.src[:, 1]
@@ -936,6 +937,13 @@ def eval_mix(sc, entry, which):
 
 def run(ctx):
     nscenes = 6 if ctx.thorough else 1
+    nrec = {}
+
+    def record(key, what, case):
+        # every evaluation is checked; at most 4 failing cases are recorded per failure key
+        nrec[key] = nrec.get(key, 0) + 1
+        if nrec[key] <= 4:
+            ctx.check(False, key, what, case=case)
     for _ in range(nscenes):
         sub = int(ctx.rng.integers(0, 2 ** 31 - 1))
         sc = Scene(sub)
@@ -955,15 +963,16 @@ def run(ctx):
                         if key in seen:
                             continue
                         seen.add(key)
-                        ctx.check(False, key, what, case={'kind': 'rep', 'sub': sub, 'entry': entry, 'cfg': cfg,
-                                                          'rep': rep.name, 'key': key})
+                        record(key, what, {'kind': 'rep', 'sub': sub, 'entry': entry, 'cfg': cfg, 'rep': rep.name,
+                                           'key': key})
         for entry, which, fn in unit_mixes(sc):
             fails, detail = eval_mix(sc, entry, which)
             ctx.case(('mix', entry, which, sub), nontrivial=True, contract='unit-mix/%s' % entry,
                      sample={'entry': entry, 'mix': which, 'outcome': detail})
             for key, what in fails:
-                ctx.check(False, key, what, case={'kind': 'mix', 'sub': sub, 'entry': entry, 'which': which,
-                                                  'key': key})
+                record(key, what, {'kind': 'mix', 'sub': sub, 'entry': entry, 'which': which, 'key': key})
+    for key, n in sorted(nrec.items()):
+        ctx.note('failure key %s: %d failing evaluations (first 4 recorded)' % (key, n))
 
 
 def replay(case):
